@@ -165,25 +165,63 @@ def _call_update(obj, name, entry, q, sensors, g, a, m, kw):
     return getattr(obj, entry)(*args)
 
 
-def _batch(name, arch, hist, kw, npseed):
+def _batch(name, arch, hist, kw, npseed, share=False):
+    """share=False: the constructor gets private copies; share=True: it gets THESE arrays and keyword objects (second consumer)"""
     sensors, _ = ARCHS[(name, arch)]
-    gyr, acc, mag = (x.copy() for x in hist)
+    gyr, acc, mag = hist if share else (x.copy() for x in hist)
     np.random.seed(npseed)
-    return np.asarray(_ctor(name, sensors, gyr, acc, mag, copy.deepcopy(kw)).Q, dtype=float)
+    return np.asarray(_ctor(name, sensors, gyr, acc, mag, kw if share else copy.deepcopy(kw)).Q, dtype=float)
 
 
-def _stream(name, arch, hist, kw, q0, npseed, obj=None):
+def _stream(name, arch, hist, kw, q0, npseed, obj=None, share=False, notes=None):
     sensors, entry = ARCHS[(name, arch)]
-    gyr, acc, mag = (x.copy() for x in hist)
+    gyr, acc, mag = hist if share else (x.copy() for x in hist)
     np.random.seed(npseed)
-    kw2 = {k: v for k, v in copy.deepcopy(kw).items() if k != 'q0'}
+    kw2 = {k: v for k, v in (kw if share else copy.deepcopy(kw)).items() if k != 'q0'}
     obj = getattr(_F(), name)(**kw2) if obj is None else obj
     q = np.array(q0, dtype=float)
     out = [q.copy()]
     for t in range(1, len(gyr)):
-        q = _call_update(obj, name, entry, q, sensors, gyr[t], acc[t], mag[t], kw)
+        qin = q if isinstance(q, np.ndarray) else np.array(q, dtype=float)
+        before = qin.tobytes()
+        q = _call_update(obj, name, entry, qin, sensors, gyr[t], acc[t], mag[t], kw)      # rows are views of the caller's arrays
+        if notes is not None and qin.tobytes() != before and not (q is qin):
+            notes.append(f'q argument of call {t} modified in place')
         out.append(np.array(q, dtype=float).copy())
     return np.array(out)
+
+
+def _changed(shared, pristine, kws=None, kw0=None):
+    """which of the caller's objects no longer hold their original bytes"""
+    bad = [nm for nm, a, b in zip(('gyr', 'acc', 'mag'), shared, pristine) if a.dtype != b.dtype or a.shape != b.shape or a.tobytes() != b.tobytes()]
+    for k in (kw0 or {}):
+        if isinstance(kw0[k], np.ndarray) and not (isinstance(kws.get(k), np.ndarray) and kws[k].tobytes() == kw0[k].tobytes()):
+            bad.append('kw:' + k)
+    return bad
+
+
+# second consumers of the same recorded arrays: one that uses the MAGNITUDE of acc (adaptive gain) and a cheap IMU filter
+CONSUMERS = [('AQUA', 'MARG', {'adaptive': True}), ('Madgwick', 'IMU', {})]
+
+
+class _FreshAhrs:
+    """`with _FreshAhrs():` -- inside, `import ahrs` yields a freshly imported copy of the package (new module objects, so every
+    module-level cache / list / generator / default-argument object is in its import-time state), as in a new interpreter; the
+    long-lived modules are put back on exit."""
+    def __enter__(self):
+        import sys, importlib
+        self.old = {k: v for k, v in sys.modules.items() if k == 'ahrs' or k.startswith('ahrs.')}
+        for k in self.old:
+            del sys.modules[k]
+        importlib.import_module('ahrs')
+        return self
+
+    def __exit__(self, *a):
+        import sys
+        for k in [k for k in sys.modules if k == 'ahrs' or k.startswith('ahrs.')]:
+            del sys.modules[k]
+        sys.modules.update(self.old)
+        return False
 
 
 def _hist_of(inp):
@@ -204,17 +242,44 @@ def _guard(fn, entry):
 
 # ------------------------------------------------------------------------------------------ oracles
 def o_stream(inp):
-    """Filter(gyr, acc[, mag]).Q == the loop over Filter().update*(q, gyr[t], acc[t][, mag[t]]) from Q[0], bit for bit"""
+    """Filter(gyr, acc[, mag]).Q == the loop over Filter().update*(q, gyr[t], acc[t][, mag[t]]) from Q[0], bit for bit; the streamed
+    run, a batch run after it and two other filters all consume THE SAME arrays, which must keep their bytes, and every consumer must
+    return what it returns on fresh copies"""
     name, arch = inp['filter'], inp['arch']
     entry = f'{name}.{arch}'
 
     def body():
-        kw = _kw(inp)
-        hist = _hist_of(inp)
-        B = _batch(name, arch, hist, kw, inp.get('npseed', 0))
+        kw0 = _kw(inp)
+        hist0 = _hist_of(inp)
+        seed = inp.get('npseed', 0)
+        B = _batch(name, arch, hist0, kw0, seed)
         if B.shape != (inp['N'], 4):
             return {'tag': f'{entry}/batch-shape', 'observed': list(B.shape), 'expected': [inp['N'], 4]}
-        S = _stream(name, arch, hist, kw, B[0], inp.get('npseed', 0))
+        if _changed(hist0, _hist_of(inp)):
+            return {'tag': f'{entry}/harness-copy-broken'}
+        shared = tuple(x.copy() for x in hist0)
+        kws = copy.deepcopy(kw0)
+        notes = []
+        S = _stream(name, arch, shared, kws, B[0], seed, share=True, notes=notes)
+        bad = _changed(shared, hist0, kws, kw0)
+        if bad or notes:
+            return {'tag': f'{entry}/stream-mutates-input', 'observed': bad + notes, 'expected': 'caller arrays keep their bytes'}
+        B2 = _batch(name, arch, shared, kws, seed, share=True)          # batch run AFTER the stream, on the same arrays
+        bad = _changed(shared, hist0, kws, kw0)
+        if bad:
+            return {'tag': f'{entry}/batch-mutates-input', 'observed': bad, 'expected': 'caller arrays keep their bytes'}
+        if not _same(B2, B):
+            return {'tag': f'{entry}/batch-after-stream-differs', 'observed': float(np.nanmax(np.abs(B2 - B))), 'expected': 0.0}
+        for (n2, a2, kw2) in CONSUMERS:
+            if hist0[0].dtype != np.float64 and (n2, a2) not in INT64_OK:
+                continue
+            C1 = _batch(n2, a2, shared, dict(kw2), seed, share=True)
+            C2 = _batch(n2, a2, hist0, dict(kw2), seed)
+            if not _same(C1, C2) or _changed(shared, hist0):
+                return {'tag': f'{entry}/second-consumer-sees-altered-data', 'observed': {'consumer': f'{n2}.{a2}', 'max_abs_diff': float(np.nanmax(np.abs(C1 - C2)))},
+                        'expected': 0.0}
+        hist = hist0
+        kw = kw0
         if name == 'AngularRate':
             # the constructor hands its rows to QuaternionArray(Q), which divides every row by its norm once more (a 1-ulp effect
             # on rows that are already unit); the recursion itself runs on the un-wrapped rows.  Same wrapper on the streamed rows.
@@ -248,14 +313,20 @@ def o_repeat(inp):
         other = inp.get('other')
         if other:                                        # somebody else's run in between
             _batch(other[0], other[1], history(inp['hseed'] + 1, inp['N'], 'generic'), {}, seed + 1)
+        shared = tuple(x.copy() for x in hist)           # every repetition consumes the same caller-owned arrays and keyword objects
+        kws = copy.deepcopy(kw)
         for rep in range(int(inp.get('reps', 2)) - 1):
-            B2 = _batch(name, arch, hist, kw, seed)
+            B2 = _batch(name, arch, shared, kws, seed, share=True)
             if not _same(B1, B2):
                 return {'tag': f'{entry}/batch-not-repeatable', 'observed': float(np.nanmax(np.abs(B1 - B2))), 'expected': 0.0}
         S1 = _stream(name, arch, hist, kw, B1[0], seed)
-        S2 = _stream(name, arch, hist, kw, B1[0], seed)
-        if not _same(S1, S2):
-            return {'tag': f'{entry}/stream-not-repeatable', 'observed': float(np.nanmax(np.abs(S1 - S2))), 'expected': 0.0}
+        S2 = _stream(name, arch, shared, kws, B1[0], seed, share=True)
+        S3 = _stream(name, arch, shared, kws, B1[0], seed, share=True)
+        if not (_same(S1, S2) and _same(S1, S3)):
+            return {'tag': f'{entry}/stream-not-repeatable', 'observed': float(np.nanmax(np.abs(S1 - S3))), 'expected': 0.0}
+        bad = _changed(shared, hist, kws, kw)
+        if bad:
+            return {'tag': f'{entry}/repeat-mutates-input', 'observed': bad, 'expected': 'caller arrays keep their bytes'}
         carried = next(c for n, _, _, c in FILTERS if n == name)
         if not carried or (name == 'AQUA' and not kw.get('adaptive')):
             # no declared carried state: a second pass through the SAME instance must reproduce the first one
@@ -281,13 +352,16 @@ def o_interleave(inp):
     entry = f"{A['filter']}.{A['arch']}+{B['filter']}.{B['arch']}"
 
     def body():
-        specs = []
+        specs, pristine = [], []
         for k, X in enumerate((A, B)):
             kw = _kw(X)
-            hist = history(X['hseed'], X['N'], X.get('kind', 'generic'))
+            Y = A if (inp.get('same_data') and k == 1) else X        # same_data: both instances consume ONE recording
+            hist = history(Y['hseed'], Y['N'], Y.get('kind', 'generic'))
             q0 = _batch(X['filter'], X['arch'], hist, kw, 0)[0]
-            specs.append((X['filter'], X['arch'], hist, kw, q0))
-        solo = [_stream(n, a, h, kw, q0, 0) for (n, a, h, kw, q0) in specs]
+            pristine.append(hist)
+            live = specs[0][2] if (inp.get('same_data') and k == 1) else tuple(x.copy() for x in hist)
+            specs.append((X['filter'], X['arch'], live, kw, q0))
+        solo = [_stream(n, a, h, kw, q0, 0) for (n, a, _, kw, q0), h in zip(specs, pristine)]
         # joint run: both instances created first, then the calls interleaved
         objs, qs, ts, outs = [], [], [1, 1], [[], []]
         for (n, a, h, kw, q0) in specs:
@@ -300,7 +374,7 @@ def o_interleave(inp):
             n, a, h, kw, _ = specs[who]
             sensors, ent = ARCHS[(n, a)]
             t = ts[who]
-            qs[who] = _call_update(objs[who], n, ent, qs[who], sensors, h[0][t].copy(), h[1][t].copy(), h[2][t].copy(), kw)
+            qs[who] = _call_update(objs[who], n, ent, qs[who], sensors, h[0][t], h[1][t], h[2][t], kw)   # views of the caller's rows
             outs[who].append(np.array(qs[who], float).copy())
             ts[who] += 1
         for k in (0, 1):
@@ -308,6 +382,45 @@ def o_interleave(inp):
             if not _same(J, solo[k]):
                 return {'tag': f'{entry}/interference', 'observed': {'instance': 'AB'[k], 'max_abs_diff': float(np.nanmax(np.abs(J - solo[k])))},
                         'expected': 'the solo run, bit for bit'}
+        for k in (0, 1):
+            bad = _changed(specs[k][2], pristine[k])
+            if bad:
+                return {'tag': f'{entry}/interleave-mutates-input', 'observed': bad, 'expected': 'caller arrays keep their bytes'}
+        return None
+    return _guard(body, entry)
+
+
+def _run_spec(X):
+    """batch rows and streamed rows of one configuration on private copies, in whatever `ahrs` is importable right now"""
+    kw = _kw(X)
+    hist = history(X['hseed'], X['N'], X.get('kind', 'generic'))
+    Bq = _batch(X['filter'], X['arch'], hist, kw, X.get('npseed', 0))
+    Sq = _stream(X['filter'], X['arch'], hist, kw, Bq[0], X.get('npseed', 0))
+    return Bq, Sq
+
+
+def o_order(inp):
+    """what a configuration returns does not depend on which other configurations were created and run before it in the process:
+    B alone in a freshly imported package == B after A (fresh package) == B in the long-lived process; same for A"""
+    A, B = inp['A'], inp['B']
+    entry = f"{A['filter']}.{A['arch']}>{B['filter']}.{B['arch']}"
+
+    def body():
+        with _FreshAhrs():
+            soloB = _run_spec(B)
+        with _FreshAhrs():
+            soloA = _run_spec(A)
+        with _FreshAhrs():
+            a1 = _run_spec(A); b1 = _run_spec(B)
+        with _FreshAhrs():
+            b2 = _run_spec(B); a2 = _run_spec(A)
+        a3 = _run_spec(A); b3 = _run_spec(B)            # in the long-lived process, after everything that ran before
+        for what, got, ref in (('B-after-A', b1, soloB), ('A-after-B', a2, soloA), ('A-first', a1, soloA), ('B-first', b2, soloB),
+                               ('A-in-long-lived-process', a3, soloA), ('B-in-long-lived-process', b3, soloB)):
+            for kind, g, r in (('batch', got[0], ref[0]), ('stream', got[1], ref[1])):
+                if not _same(g, r):
+                    return {'tag': f'{entry}/order-dependent', 'observed': {'case': what, 'run': kind, 'max_abs_diff': float(np.nanmax(np.abs(g - r)))},
+                            'expected': 'the run in a freshly imported package, bit for bit'}
         return None
     return _guard(body, entry)
 
@@ -329,7 +442,8 @@ def o_single_frame(inp):
 
         def est(o, t):
             np.random.seed(inp.get('npseed', 0) + t)
-            return np.array(o.estimate(acc[t].copy(), mag[t].copy()), float)
+            return np.array(o.estimate(acc[t], mag[t]), float)             # views of the caller's rows
+        acc0, mag0 = acc.copy(), mag.copy()
         solo = [est(A, t) for t in range(inp['N'])]
         # a second instance is created (from the same caller-owned keyword values) and used in between
         Bo = cls(**kw)
@@ -341,6 +455,8 @@ def o_single_frame(inp):
             d = float(np.nanmax(np.abs(np.array(solo) - np.array(joint))))
             kind = 'caller-weights-renormalised' if shared_w is not None else 'interference'
             return {'tag': f'{entry}/{kind}', 'observed': d, 'expected': 0.0}
+        if acc.tobytes() != acc0.tobytes() or mag.tobytes() != mag0.tobytes():
+            return {'tag': f'{entry}/mutates-input', 'observed': 'acc/mag rows changed by estimate', 'expected': 'caller arrays keep their bytes'}
         np.random.seed(inp.get('npseed', 0))
         Q1 = np.array(cls(acc=acc.copy(), mag=mag.copy(), **_kw(inp)).Q, float)
         np.random.seed(inp.get('npseed', 0))
@@ -351,7 +467,7 @@ def o_single_frame(inp):
     return _guard(body, entry)
 
 
-ORACLES = {'stream': o_stream, 'repeat': o_repeat, 'interleave': o_interleave, 'single_frame': o_single_frame}
+ORACLES = {'stream': o_stream, 'repeat': o_repeat, 'interleave': o_interleave, 'single_frame': o_single_frame, 'order': o_order}
 
 
 # ------------------------------------------------------------------------------------------ correspondence
@@ -568,6 +684,26 @@ def _kinds(name, arch):
     return ['generic', 'fast', 'int', 'int64' if (name, arch) in INT64_OK else 'int', 'zero' + z, 'zerog']
 
 
+def _order_pairs(scale):
+    """pairs of DIFFERENT configurations: per class and architecture option 0 against every other option (all option pairs in the
+    thorough tier), the two architectures of a class against each other, and pairs of different classes that share helpers"""
+    out = []
+    for name, opts in OPTIONS.items():
+        archs = [a for (n, a) in ARCHS if n == name]
+        for a in archs:
+            for i in range(len(opts)):
+                for j in range(i + 1, len(opts)):
+                    if i == 0 or scale > 1:
+                        out.append(((name, a, i), (name, a, j)))
+        if len(archs) == 2:
+            for i in range(len(opts) if scale > 1 else 2):
+                out.append(((name, archs[0], i), (name, archs[1], (i + 1) % len(opts))))
+    cross = [(('EKF', 'MARG', 0), ('ROLEQ', 'MARG', 1)), (('ROLEQ', 'MARG', 0), ('EKF', 'MARG', 1)), (('EKF', 'MARG', 1), ('Fourati', 'MARG', 0)),
+             (('AQUA', 'MARG', 1), ('Mahony', 'MARG', 0)), (('Madgwick', 'MARG', 0), ('Fourati', 'MARG', 1)), (('UKF', 'IMU', 0), ('EKF', 'IMU', 1)),
+             (('AngularRate', 'GYR', 1), ('Madgwick', 'IMU', 1)), (('Mahony', 'IMU', 2), ('AQUA', 'IMU', 2))]
+    return out + cross
+
+
 def search(ctx, scale):
     rng = ctx.rng
     cfgs = list(ARCHS)
@@ -594,8 +730,15 @@ def search(ctx, scale):
                 o = OPTIONS[c[0]]
                 return {'filter': c[0], 'arch': c[1], 'kw': o[(j + rep) % len(o)], 'hseed': int(rng.integers(1 << 30)),
                         'N': NS[int(rng.integers(1, len(NS) - 1))], 'kind': ('generic', 'zerog')[j % 2]}
-            inp = {'A': spec(a, 0), 'B': spec(b, 1), 'iseed': int(rng.integers(1 << 30))}
+            inp = {'A': spec(a, 0), 'B': spec(b, 1), 'iseed': int(rng.integers(1 << 30)), 'same_data': bool((rep + len(a[0])) % 2)}
             ctx.check('interleave', inp, o_interleave(inp), nontrivial_key=('il', a, b, rep))
+    # creation/run ORDER of different configurations, each compared with its run in a freshly imported package
+    for (a, b) in _order_pairs(scale):
+        def ospec(c):
+            return {'filter': c[0], 'arch': c[1], 'kw': OPTIONS[c[0]][c[2]], 'hseed': int(rng.integers(1 << 30)), 'N': NS[int(rng.integers(1, 5))],
+                    'kind': 'generic', 'npseed': int(rng.integers(1 << 16))}
+        inp = {'A': ospec(a), 'B': ospec(b)}
+        ctx.check('order', inp, o_order(inp), nontrivial_key=('ord', a, b))
     for name in ('OLEQ', 'FLAE'):
         for j in range(8 * scale):
             kw = [{}, {'weights': [0.7, 1.9]} if name == 'OLEQ' else {'method': 'newton'}, {'frame': 'ENU'} if name == 'OLEQ' else {'method': 'eig'},
